@@ -425,13 +425,14 @@ impl<T: ObjectStore> ObjectStore for MetaStore<T> {
     }
 
     async fn get_ranges(&self, location: &Path, ranges: &[Range<u64>]) -> Result<Vec<Bytes>> {
-        if ranges.is_empty() {
-            return Ok(Vec::new());
-        }
-
         let mut retried = false;
         loop {
+            // The object has to exist even when no range is asked for: a
+            // missing key is `NotFound`, as with every other read.
             let meta = self.inner.get_meta(location).await?;
+            if ranges.is_empty() {
+                return Ok(Vec::new());
+            }
             validate_ranges("MetaStore", ranges, meta.size)?;
 
             let payload_path = self
